@@ -35,7 +35,7 @@ def shards(tier):
 
 def required_counters(tier):
     return {'judged:operator-consistency': 200, 'judged:construction': 200, 'judged:mask-placement': 100, 'judged:commute-rotate': 50,
-            'judged:commute-to_sky': 50, 'judged:commute-to_sky-membership': 500, 'judged:copy-operator': 200, 'judged:annulus-membership': 100, 'judged:annulus-area': 50,
+            'judged:commute-to_sky': 50, 'judged:commute-to_sky-membership': 500, 'judged:copy-operator': 200, 'judged:in-operator': 500, 'judged:annulus-membership': 100, 'judged:annulus-area': 50,
             'monitor:contains:CompoundPixelRegion': 100, 'monitor:to_mask:CompoundPixelRegion:center': 50, 'judged:sky-compound-contains': 20, 'history-steps': 30,
             'unprojectable-sky-positions': 50, 'sky-annulus-cases': 20, 'sky-compounds-of-mixed-frames': 20, 'rotations-about-an-operand-centre': 20}
 
@@ -356,6 +356,17 @@ def run_case(case, obs):
                               f'the conversion back {bool(backp[i])}; {int(bad_s.sum())} / {int(bad_b.sum())} positions differ')
             else:
                 obs.ok(int(dec.sum()), 'commute-to_sky-membership')
+    # (iv-b) `position in compound` is contains() for one position - near the operands and far outside their boxes alike
+    sxs = np.asarray(pc.x, dtype=float).ravel()
+    sys_ = np.asarray(pc.y, dtype=float).ravel()
+    cxq, cyq, Lq = c01.region_scale(comp)
+    probes = [(float(sxs[i]), float(sys_[i])) for i in range(0, min(sxs.size, 6), 2)] + [(cxq + 40 * Lq + 1e4, cyq - 25 * Lq), (cxq - 3e5, cyq + 7e5)]
+    for qx_, qy_ in probes:
+        one = PixCoord(qx_, qy_)
+        a_in = one in comp
+        a_c = comp.contains(one)
+        obs.check(isinstance(a_in, (bool, np.bool_)) and bool(a_in) == bool(a_c), 'in-operator-differs-from-contains',
+                  f'{opname}: `({qx_!r}, {qy_!r}) in compound` gave {a_in!r}, contains {a_c!r} (include={dict.get(comp.meta, "include", "absent")!r})', 'in-operator')
     # (v) the same two operands under another operator: copy(operator=...) is the compound of them under THAT operator
     others = [o for o in ('and', 'or', 'xor') if OPS[o] is not comp.operator]
     other = others[case['rs'] % len(others)]
